@@ -247,7 +247,14 @@ def compare(sc, exp, proto, amb, res, log):
     if not exp["ok"] and exp["exc"] != res["exc"]:
         return "wrong-exception:" + res["exc"], {"expected": exp["exc"]}
     eo, go = exp["out"], res["out"]
-    if mode == "read":
+    if mode == "read" and not exp["ok"]:
+        # what is yielded before the exception is not documented: it must be among the expected objects
+        for g in go:
+            if not any((e["f"], e["k"], e["c"]) == (g["f"], g["k"], g["c"]) and norm_ctx(e["ctx"]) == g["ctx"] for e in eo):
+                return "objects-yielded", {"expected": eo, "observed": go}
+        if any(not x["alive"] for x in go):
+            return "yielded-after-close", {"observed": go}
+    elif mode == "read":
         go = reorder_like(eo, go, lambda x: (x["f"], x["k"]))
         if [(x["f"], x["k"]) for x in eo] != [(x["f"], x["k"]) for x in go]:
             return "objects-yielded", {"expected": [(x["f"], x["k"]) for x in eo], "observed": [(x["f"], x["k"]) for x in go]}
